@@ -80,3 +80,13 @@ PROPS["C14"] = {
                   T("TestC14Unique", {"checks": 800, "shards": 2}, {"checks": 5000, "shards": 8})],
     }],
 }
+
+PROPS["C06"] = {
+    "level": "exploration",
+    "assumptions": ["verifkit/wire's strict decoder defines 'well-formed header chain'; an IPv4 version nibble other than 4 is not judged",
+                    "necessary conditions only: the check never demands a record"],
+    "units": [{
+        "pkg": "command",
+        "tests": [T("TestC06Frames", {"checks": 5000, "shards": 4}, {"checks": 30000, "shards": 16})],
+    }],
+}
